@@ -140,6 +140,11 @@ class Case:
             # fit() called under no_grad makes no sense for training; the clause checked here is only that the mode found
             # on entry is the mode left behind, so the off-case is exercised with Trainer.test
             pass
+        if sp.get("stale_grads"):
+            # gradients left on the parameters by something that ran before fit() (a probe backward, an earlier loop):
+            # every update must still be computed from its own batch only
+            for k, p_ in enumerate(params):
+                p_._grad = snapshot(env.arr("stale%d" % k, p_.shape))
         tm.gradient__ = True
         before_flags = (tm.gradient__, tm.retain_grads__)
         cb_train = cb_val = None
@@ -293,6 +298,8 @@ def enumerate_specs(tier):
     for nb, val in ((1, False), (2, True)):
         specs.append({"epochs": 1 if tier == "quick" else 2, "batches": nb, "val": val, "evaluator": None, "grad_on_entry": True,
                       "test": False, "callbacks": True})
+        specs.append({"epochs": 1, "batches": nb, "val": val, "evaluator": None, "grad_on_entry": True, "test": False,
+                      "stale_grads": True})
     for mode in ("binary", "multi-class", "categorical"):
         for val in (False, True):
             specs.append({"epochs": 1, "batches": 1, "val": val, "evaluator": mode, "grad_on_entry": True, "test": False})
